@@ -128,6 +128,50 @@ fn ticks_json(t0: &[u64; hook::NCLASS]) -> Value {
     json!({"cmp": t[hook::T_CMP], "tw": t[hook::T_TW], "rk": t[hook::T_RK], "pp": t[hook::T_PP], "pre": t[hook::T_PRE], "prep": t[hook::T_PREP], "mc": t[hook::T_MC]})
 }
 
+/// Build finders for `nd` and run every search operation on `h`, one cost record per operation.
+fn ops_on(f: &mut impl Write, fam: &str, nd: &[u8], h: &[u8], force: &str) -> u64 {
+    let mut nrec = 0u64;
+    for pf in ["auto", "none"] {
+        let pfc = if pf == "auto" { Prefilter::Auto } else { Prefilter::None };
+        let mut emit = |op: &str, t: [u64; hook::NCLASS], result: i64| {
+            let r = json!({"k": "cost", "family": fam, "op": op, "prefilter": pf, "force": force, "nlen": nd.len(), "hlen": h.len(), "ticks": ticks_json(&t), "result": result});
+            writeln!(f, "{}", r).unwrap();
+            nrec += 1;
+        };
+        hook::start(&[]);
+        let fw = FinderBuilder::new().prefilter(pfc).build_forward(nd);
+        let (_, t) = hook::stop();
+        emit("build_forward", t, 0);
+        hook::start(&[]);
+        let r = fw.find(h);
+        let (_, t) = hook::stop();
+        emit("find", t, opt_to_i(r));
+        hook::start(&[]);
+        let c = fw.find_iter(h).count();
+        let (_, t) = hook::stop();
+        emit("find_iter", t, c as i64);
+        if pf == "auto" {
+            hook::start(&[]);
+            let rv = FinderBuilder::new().build_reverse(nd);
+            let (_, t) = hook::stop();
+            emit("build_reverse", t, 0);
+            hook::start(&[]);
+            let r = rv.rfind(h);
+            let (_, t) = hook::stop();
+            emit("rfind", t, opt_to_i(r));
+            hook::start(&[]);
+            let c = rv.rfind_iter(h).count();
+            let (_, t) = hook::stop();
+            emit("rfind_iter", t, c as i64);
+            hook::start(&[]);
+            let r = memchr::memmem::find(h, nd);
+            let (_, t) = hook::stop();
+            emit("memmem::find", t, opt_to_i(r));
+        }
+    }
+    nrec
+}
+
 pub fn record(out_path: &str, max_hay_log2: u32, seed: u64, force: &str) -> u64 {
     memchr::verif::set_force(force);
     let mut f = std::io::BufWriter::new(std::fs::File::create(out_path).unwrap());
@@ -146,44 +190,23 @@ pub fn record(out_path: &str, max_hay_log2: u32, seed: u64, force: &str) -> u64 
                 continue;
             }
             for (fam, nd, h) in families(m, n, seed) {
-                for pf in ["auto", "none"] {
-                    let pfc = if pf == "auto" { Prefilter::Auto } else { Prefilter::None };
-                    let mut emit = |op: &str, t: [u64; hook::NCLASS], result: i64| {
-                        let r = json!({"k": "cost", "family": fam, "op": op, "prefilter": pf, "force": force, "nlen": nd.len(), "hlen": h.len(), "ticks": ticks_json(&t), "result": result});
-                        writeln!(f, "{}", r).unwrap();
-                        nrec += 1;
-                    };
-                    hook::start(&[]);
-                    let fw = FinderBuilder::new().prefilter(pfc).build_forward(&nd);
-                    let (_, t) = hook::stop();
-                    emit("build_forward", t, 0);
-                    hook::start(&[]);
-                    let r = fw.find(&h);
-                    let (_, t) = hook::stop();
-                    emit("find", t, opt_to_i(r));
-                    hook::start(&[]);
-                    let c = fw.find_iter(&h).count();
-                    let (_, t) = hook::stop();
-                    emit("find_iter", t, c as i64);
-                    if pf == "auto" {
-                        hook::start(&[]);
-                        let rv = FinderBuilder::new().build_reverse(&nd);
-                        let (_, t) = hook::stop();
-                        emit("build_reverse", t, 0);
-                        hook::start(&[]);
-                        let r = rv.rfind(&h);
-                        let (_, t) = hook::stop();
-                        emit("rfind", t, opt_to_i(r));
-                        hook::start(&[]);
-                        let c = rv.rfind_iter(&h).count();
-                        let (_, t) = hook::stop();
-                        emit("rfind_iter", t, c as i64);
-                        hook::start(&[]);
-                        let r = memchr::memmem::find(&h, &nd);
-                        let (_, t) = hook::stop();
-                        emit("memmem::find", t, opt_to_i(r));
-                    }
-                }
+                nrec += ops_on(&mut f, fam, &nd, &h, force);
+            }
+        }
+    }
+    // haystacks shorter than twice the needle (|n| <= |h| < 2|n|): the routes that are only meant for tiny haystacks
+    // (Rabin-Karp) must not be taken here, and the vector / Two-Way routes see a single window's worth of slack
+    for &m in &[64usize, 200, 256, 520, 1024, 4096] {
+        for n in [m, m + 1, m + m / 2, 2 * m - 1] {
+            let mut fams: Vec<(String, Vec<u8>, Vec<u8>)> = families(m, n, seed).into_iter().map(|(a, b, c)| (format!("short haystack: {a}"), b, c)).collect();
+            let mut nd = vec![b'a'; m];
+            nd[m - 40] = b'b';
+            fams.push(("short haystack: a^(m-40) b a^39 in a^n".to_string(), nd, vec![b'a'; n]));
+            let mut nd = vec![b'a'; m];
+            nd[39] = b'b';
+            fams.push(("short haystack: a^39 b a^(m-40) in a^n".to_string(), nd, vec![b'a'; n]));
+            for (fam, nd, h) in fams {
+                nrec += ops_on(&mut f, &fam, &nd, &h, force);
             }
         }
     }
